@@ -236,6 +236,7 @@ func runC11(c *Ctx) {
 	c11CompiledRagged(c)
 	c11World(c)
 	c11Find(c)
+	c11Batches(c)
 	c11Attempts(c)
 	c11Resets(c)
 }
